@@ -328,6 +328,27 @@ def dense_family(which):
         if use_bias:
           lin.bias.value = R(b)
         cases.append(('nnx.Linear%r bias=%s' % (bshape, use_bias), lin(R(x)), got))
+      # LoRA: x @ A @ B (+ base(x)); LoRALinear: Linear(x) + x @ A @ B
+      from flax.nnx.nn import lora as NLORA
+      for bshape in ((), (2,)):
+        x = A.sym('x', bshape + (3,))
+        k, b = A.sym('k', (3, 2)), A.sym('b', (2,))
+        la, lb = A.sym('la', (3, 1)), A.sym('lb', (1, 2))
+        want_lora = ref_contract(ref_contract(x, la, None, 1), lb, None, 1)
+        lo = nnx.LoRA(3, 1, 2, rngs=nnx.Rngs(0))
+        lo.lora_a.value, lo.lora_b.value = R(la), R(lb)
+        cases.append(('nnx.LoRA%r' % (bshape,), lo(R(x)), want_lora))
+        base = nnx.Linear(3, 2, rngs=nnx.Rngs(0), dot_general=be('dot_general'))
+        base.kernel.value, base.bias.value = R(k), R(b)
+        lo2 = nnx.LoRA(3, 1, 2, base_module=base, rngs=nnx.Rngs(0))
+        lo2.lora_a.value, lo2.lora_b.value = R(la), R(lb)
+        want_full = ref_contract(x, k, b, 1) + want_lora
+        cases.append(('nnx.LoRA with base%r' % (bshape,), lo2(R(x)), want_full))
+        ll = nnx.LoRALinear(3, 2, lora_rank=1, rngs=nnx.Rngs(0),
+                            dot_general=be('dot_general'))
+        ll.kernel.value, ll.bias.value = R(k), R(b)
+        ll.lora.lora_a.value, ll.lora.lora_b.value = R(la), R(lb)
+        cases.append(('nnx.LoRALinear%r' % (bshape,), ll(R(x)), want_full))
     elif which == 1:    # DenseGeneral / LinearGeneral: axes and feature tuples
       for axis, feats, xs in [((-1,), (2,), (2, 3)), ((-2, -1), (2,), (2, 2, 3)),
                               ((-1,), (2, 2), (2, 3)), ((1, 2), (3,), (1, 2, 2)),
@@ -1116,7 +1137,7 @@ ASSUMPTIONS = (
     'the shim itself (vf/symnp.py) is trusted after its per-run validation against '
     'real jax on random concrete inputs',
     'shapes / configurations beyond the instantiated grid, ConvTranspose, '
-    'ConvLocal, LoRA, fp8 are NOT covered',
+    'ConvLocal, fp8 are NOT covered',
     'jax.core.get_opaque_trace_state compat shim installed by the harness process',
 )
 
